@@ -8,6 +8,7 @@ import Driver.Ops.C07
 import Driver.Ops.C08
 import Driver.Ops.C09
 import Driver.Ops.C10
+import Driver.Ops.C11
 import Driver.Ops.C12
 import Driver.Ops.C13
 import Driver.Ops.C14
@@ -29,6 +30,7 @@ def allOps : OpTable :=
   ++ opsC08
   ++ opsC09
   ++ opsC10
+  ++ opsC11
   ++ opsC12
   ++ opsC13
   ++ opsC14
